@@ -327,9 +327,9 @@ func genPre(t *rapid.T) PreCase {
 
 var specPre = kit.Spec[PreCase]{
 	Prop: "C40", Name: "predir",
-	Rule: "the keystore is opened on an existing directory in which 1..3 entries were placed beforehand: symbolic links (dangling to several places outside and inside the directory, to an existing key file or directory outside, to themselves), sub-directories, key files or garbage at the file names of key names used later, or foreign entry names; then 1..12 operations put/get/has/delete/list mostly on those names. Demanded: nothing outside the keystore directory is created, removed or modified after any step (snapshot of the private sandbox), NewFSKeystore and List succeed, and names whose file name was not pre-occupied follow the map model. Results for pre-occupied names are not judged. non-trivial = a Put is executed on a name whose file name is occupied by a symbolic link",
+	Rule:  "the keystore is opened on an existing directory in which 1..3 entries were placed beforehand: symbolic links (dangling to several places outside and inside the directory, to an existing key file or directory outside, to themselves), sub-directories, key files or garbage at the file names of key names used later, or foreign entry names; then 1..12 operations put/get/has/delete/list mostly on those names. Demanded: nothing outside the keystore directory is created, removed or modified after any step (snapshot of the private sandbox), NewFSKeystore and List succeed, and names whose file name was not pre-occupied follow the map model. Results for pre-occupied names are not judged. non-trivial = a Put is executed on a name whose file name is occupied by a symbolic link",
 	Quick: 600, Thorough: 2500,
-	Gen:   genPre, Run: runPre,
+	Gen: genPre, Run: runPre,
 	Sample: func(c PreCase) any {
 		var s []string
 		for _, p := range c.Plants {
